@@ -5,6 +5,7 @@ import (
 	"fmt"
 	"net"
 	"sync"
+	"sync/atomic"
 	"time"
 
 	"github.com/google/uuid"
@@ -136,7 +137,7 @@ func (s *Store) Stats() StoreStats {
 		Leases:         len(s.leases),
 		Pools:          len(s.pools),
 		NATBindings:    len(s.natBindings),
-		Reads:          s.stats.Reads,
+		Reads:          atomic.LoadInt64(&s.stats.Reads),
 		Writes:         s.stats.Writes,
 		Deletes:        s.stats.Deletes,
 	}
@@ -187,7 +188,7 @@ func (s *Store) GetSubscriber(id string) (*Subscriber, error) {
 		return nil, fmt.Errorf("subscriber not found: %s", id)
 	}
 
-	s.stats.Reads++
+	atomic.AddInt64(&s.stats.Reads, 1)
 	return sub, nil
 }
 
@@ -202,7 +203,7 @@ func (s *Store) GetSubscriberByMAC(mac net.HardwareAddr) (*Subscriber, error) {
 	}
 
 	sub := s.subscribers[id]
-	s.stats.Reads++
+	atomic.AddInt64(&s.stats.Reads, 1)
 	return sub, nil
 }
 
@@ -217,7 +218,7 @@ func (s *Store) GetSubscriberByNTE(nteID string) (*Subscriber, error) {
 	}
 
 	sub := s.subscribers[id]
-	s.stats.Reads++
+	atomic.AddInt64(&s.stats.Reads, 1)
 	return sub, nil
 }
 
@@ -322,7 +323,7 @@ func (s *Store) GetPool(id string) (*Pool, error) {
 		return nil, fmt.Errorf("pool not found: %s", id)
 	}
 
-	s.stats.Reads++
+	atomic.AddInt64(&s.stats.Reads, 1)
 	return pool, nil
 }
 
@@ -333,7 +334,7 @@ func (s *Store) GetPoolByName(name string) (*Pool, error) {
 
 	for _, pool := range s.pools {
 		if pool.Name == name {
-			s.stats.Reads++
+			atomic.AddInt64(&s.stats.Reads, 1)
 			return pool, nil
 		}
 	}
@@ -493,7 +494,7 @@ func (s *Store) GetLease(id string) (*Lease, error) {
 		return nil, fmt.Errorf("lease not found: %s", id)
 	}
 
-	s.stats.Reads++
+	atomic.AddInt64(&s.stats.Reads, 1)
 	return lease, nil
 }
 
@@ -508,7 +509,7 @@ func (s *Store) GetLeaseByIP(ip net.IP) (*Lease, error) {
 	}
 
 	lease := s.leases[id]
-	s.stats.Reads++
+	atomic.AddInt64(&s.stats.Reads, 1)
 	return lease, nil
 }
 
@@ -523,7 +524,7 @@ func (s *Store) GetLeaseByMAC(mac net.HardwareAddr) (*Lease, error) {
 	}
 
 	lease := s.leases[id]
-	s.stats.Reads++
+	atomic.AddInt64(&s.stats.Reads, 1)
 	return lease, nil
 }
 
@@ -652,7 +653,7 @@ func (s *Store) GetSession(id string) (*Session, error) {
 		return nil, fmt.Errorf("session not found: %s", id)
 	}
 
-	s.stats.Reads++
+	atomic.AddInt64(&s.stats.Reads, 1)
 	return session, nil
 }
 
@@ -667,7 +668,7 @@ func (s *Store) GetSessionByMAC(mac net.HardwareAddr) (*Session, error) {
 	}
 
 	session := s.sessions[id]
-	s.stats.Reads++
+	atomic.AddInt64(&s.stats.Reads, 1)
 	return session, nil
 }
 
@@ -682,7 +683,7 @@ func (s *Store) GetSessionByIP(ip net.IP) (*Session, error) {
 	}
 
 	session := s.sessions[id]
-	s.stats.Reads++
+	atomic.AddInt64(&s.stats.Reads, 1)
 	return session, nil
 }
 
@@ -795,7 +796,7 @@ func (s *Store) GetNATBinding(id string) (*NATBinding, error) {
 		return nil, fmt.Errorf("NAT binding not found: %s", id)
 	}
 
-	s.stats.Reads++
+	atomic.AddInt64(&s.stats.Reads, 1)
 	return binding, nil
 }
 
@@ -811,7 +812,7 @@ func (s *Store) GetNATBindingByPrivate(ip net.IP, port uint16, protocol uint8) (
 	}
 
 	binding := s.natBindings[id]
-	s.stats.Reads++
+	atomic.AddInt64(&s.stats.Reads, 1)
 	return binding, nil
 }
 
@@ -827,7 +828,7 @@ func (s *Store) GetNATBindingByPublic(ip net.IP, port uint16, protocol uint8) (*
 	}
 
 	binding := s.natBindings[id]
-	s.stats.Reads++
+	atomic.AddInt64(&s.stats.Reads, 1)
 	return binding, nil
 }
 
